@@ -985,6 +985,42 @@ func theoryAxioms(apps []appRec) []*Term {
 			out = append(out, mkImplies(mkAnd(mkLe(mkInt(0), b.args[0]), mkEq(a.args[0], mkAdd(b.args[0], mkInt(1)))), mkEq(a.res, mkMul(mkInt(2), b.res))))
 		}
 	}
+	// double angle: cos(t) = 1 - 2 sin(t/2)^2 and sin(t) = 2 sin(t/2) cos(t/2), for applications
+	// whose arguments are syntactically t and t/2
+	{
+		sinAt := map[int]*Term{}
+		cosAt := map[int]*Term{}
+		var argsSeen []*Term
+		for _, a := range apps {
+			if len(a.args) != 1 {
+				continue
+			}
+			switch a.fn {
+			case "sin":
+				sinAt[a.args[0].id] = a.res
+				argsSeen = append(argsSeen, a.args[0])
+			case "cos":
+				cosAt[a.args[0].id] = a.res
+			}
+		}
+		halfC := mkRat(big.NewRat(1, 2), SReal)
+		for _, t := range argsSeen {
+			for _, u := range []*Term{mkMul(halfC, t), mkDiv(t, mkRealInt(2))} {
+				su, cu := sinAt[u.id], cosAt[u.id]
+				st, ct := sinAt[t.id], cosAt[t.id]
+				if su == nil || cu == nil || st == nil || ct == nil || u == t {
+					continue
+				}
+				d1 := mkEq(ct, mkSub(mkRealInt(1), mkMul(mkRealInt(2), mkMul(su, su))))
+				d2 := mkEq(st, mkMul(mkRealInt(2), mkMul(su, cu)))
+				registerDef(d1, ct, su)
+				registerDef(d2, st, su)
+				axiomNeedsAll[d1.id] = true
+				axiomNeedsAll[d2.id] = true
+				out = append(out, d1, d2)
+			}
+		}
+	}
 	// pow2 against log2: 2^n >= y  <=>  n >= log2(y)   (n >= 0, y > 0), and log2 is monotone
 	var log2s []appRec
 	for _, a := range apps {
